@@ -68,10 +68,10 @@ Proof.
   - rewrite decide_False by discriminate. cbn. exact IH'.
 Qed.
 
-Lemma sfind_keys p (s : store) : map fst (sfind p s) = filter (fun k => is_prefix p k = true) (skeys s).
+Lemma sfind_keys (p : bytes) (s : store) : map fst (sfind p s) = filter (fun k => is_prefix p k = true) (skeys s).
 Proof. apply sfind_keys_gen. intros k. apply elem_of_skeys. Qed.
 
-Lemma elem_of_sfind p (s : store) k v :
+Lemma elem_of_sfind (p : bytes) (s : store) k v :
   (k, v) ∈ sfind p s <-> s !! k = Some v /\ is_prefix p k = true.
 Proof.
   unfold sfind. rewrite elem_of_list_omap. split.
@@ -80,11 +80,11 @@ Proof.
   - intros [Hv Hp]. exists k. split; [apply elem_of_skeys; eauto|]. by rewrite Hp, Hv.
 Qed.
 
-Lemma elem_of_sfind_keys p (s : store) k :
+Lemma elem_of_sfind_keys (p : bytes) (s : store) k :
   k ∈ map fst (sfind p s) <-> is_Some (s !! k) /\ is_prefix p k = true.
 Proof. rewrite sfind_keys, elem_of_list_filter, elem_of_skeys. tauto. Qed.
 
-Lemma NoDup_sfind_keys p (s : store) : NoDup (map fst (sfind p s)).
+Lemma NoDup_sfind_keys (p : bytes) (s : store) : NoDup (map fst (sfind p s)).
 Proof. rewrite sfind_keys. apply NoDup_filter, NoDup_skeys. Qed.
 
 Lemma StronglySorted_filter {A} (R : relation A) (P : A -> Prop) `{!forall x, Decision (P x)} l :
@@ -97,7 +97,7 @@ Proof.
 Qed.
 
 (** [Find] order: ascending byte order of the keys. *)
-Lemma Sorted_sfind_keys p (s : store) : Sorted bytes_le (map fst (sfind p s)).
+Lemma Sorted_sfind_keys (p : bytes) (s : store) : Sorted bytes_le (map fst (sfind p s)).
 Proof.
   rewrite sfind_keys. apply StronglySorted_Sorted, StronglySorted_filter.
   apply Sorted_StronglySorted; [apply _|apply Sorted_skeys].
@@ -129,7 +129,7 @@ Proof.
   exfalso. apply Hnk. rewrite <- Hk. apply elem_of_list_fmap. by exists (k, v2).
 Qed.
 
-Lemma sfind_unique p (s : store) (L : list (bytes * bytes)) :
+Lemma sfind_unique (p : bytes) (s : store) (L : list (bytes * bytes)) :
   StronglySorted bytes_lt (map fst L) ->
   (forall k v, (k, v) ∈ L <-> s !! k = Some v /\ is_prefix p k = true) ->
   sfind p s = L.
@@ -148,7 +148,7 @@ Proof.
 Qed.
 
 (** [sfind p] looks only at the keys under [p]. *)
-Lemma sfind_ext p (s1 s2 : store) :
+Lemma sfind_ext (p : bytes) (s1 s2 : store) :
   (forall k, is_prefix p k = true -> s1 !! k = s2 !! k) -> sfind p s1 = sfind p s2.
 Proof.
   intros He. apply pairs_eq_of_keys.
@@ -161,7 +161,7 @@ Proof.
   - intros [k v]. rewrite !elem_of_sfind. intros [H1 H2]. split; [|exact H2]. by rewrite <- He.
 Qed.
 
-Lemma sfind_nil p (s : store) :
+Lemma sfind_nil (p : bytes) (s : store) :
   sfind p s = [] <-> forall k, is_prefix p k = true -> s !! k = None.
 Proof.
   split.
@@ -190,7 +190,7 @@ Proof.
 Qed.
 
 (** Deleting everything [Find] listed under [p]. *)
-Lemma del_sfind_lookup p (s : store) k :
+Lemma del_sfind_lookup (p : bytes) (s : store) k :
   del_all (map fst (sfind p s)) s !! k = if is_prefix p k then None else s !! k.
 Proof.
   rewrite del_all_lookup. case_bool_decide as H.
